@@ -221,7 +221,13 @@ def run(ctx, crate):
                 r = core.mk_proj(core.mk_proj(r, ("dc", "Ok")), ("f", 0, "0"))
                 if cterm != r:
                     okv = False
-    clo = [b for p_, b in crate.bodies.items() if p_.startswith(VERSION_FN + "::{closure")]
+    # the closure handed to map() on the component iterator (wherever it is declared: the helper may have been split)
+    cpaths = set()
+    for s_ in comp_calls:
+        for x in T.subterms(s_.args[0]):
+            if x[0] == "agg" and x[1] == "closure":
+                cpaths.add(x[2])
+    clo = [crate.bodies[p_] for p_ in sorted(cpaths) if p_ in crate.bodies]
     okc = len(clo) == 1 and T.is_call(clo[0].val_local(0), "parse::<i32>") and clo[0].val_local(0)[2] and clo[0].val_local(0)[2][0] == ("param", 2)
     obs.append(Ob("R09.pragma", VERSION_FN, "the triple is the three components in order, each parsed as i32, unmodified", bool(okv and okc),
                   expected="Some((c1, c2, c3)) with ci the i-th parsed component", found="%s ; components parsed by %s" % (
